@@ -45,6 +45,12 @@ T = {
  "C22": ("refmodel", "exploration", "runtime monitor: 3x3 creator-mode x reopen-mode matrix over directory states, Open's verdict plus byte-level directory digest before/after, full observation when the modes are compatible",
          "Directory states: never opened, opened and closed, written, many segments, merged, crashed (process-crash images).",
          "KV data only."),
+ "C03": ("refmodel", "exploration", "runtime monitor: reference-model comparator with an exhaustive (prefix, offset, limit, regexp) sweep per generated state",
+         "States with 30-60 % dead keys in all three index modes; every prefix x offset 0..n+1 x limit {-1,1..n+1} compared with take(limit, drop(offset, live keys)).",
+         "limit 0 and < -1 are outside the domain. Sparse-mode paging is a known finding (KF-SPARSE-PAGING*); unpaged sparse scans and all RAM-mode calls must pass."),
+ "C04": ("refmodel", "exploration", "runtime monitor: non-interference self-comparison (other buckets' full observation unchanged by a single-bucket transaction) plus reference model, over adversarial bucket names",
+         "Names that are prefixes of each other / of keys, coinciding bucket+key concatenations, the empty name; KV in all modes, structures in KeyVal.",
+         "Sparse mode with prefix-related names is a known finding (KF-SPARSE-COMPOSITE-KEY), attached to its own scenario class."),
  "C05": ("refmodel", "exploration", "runtime monitor: Redis-list reference model; bounded-exhaustive state x operation x argument sweep on the exported list type plus one-operation-per-transaction histories with full observation",
          "Exhaustive for the bounded scope on ds/list.List (781 states x 3 construction paths x all arguments, all short sequences), random long sequences, and transaction-level histories with reopen; every call result and resulting list compared with the model.",
          "Model tolerates the documented error-instead-of-clamp choices; a panic is never tolerated."),
